@@ -104,7 +104,7 @@ def compare(scn, vals, flags, errors, kind="ekf"):
     return out, n, trace
 
 
-def replay_cpp(ctx, scns, cse_settings=(False, True), kind="ekf", presentation="random", via_entry=False, keep_trace=False):
+def replay_cpp(ctx, scns, cse_settings=(False, True), kind="ekf", presentation="random", via_entry="alternate", keep_trace=False):
     """Returns list of dict(scn, cse, status in {'ok','dropped','generate-failed','build-failed','run-failed'},
     mismatches, values, detail)."""
     jobs = []
@@ -117,7 +117,12 @@ def replay_cpp(ctx, scns, cse_settings=(False, True), kind="ekf", presentation="
     ctx.log("generating C++ for %d (scenario, CSE) pairs" % len(jobs))
     def _pres(j):
         return ("random:cpp:%s:%s:%s" % (ctx.seed, j["scn"].get("_id", ""), j["cse"])) if presentation == "random" else presentation
-    gen = workers.run_tasks([("tasks", "cpp_generate", (j["clean"], j["cse"], j["dir"], kind, _pres(j), via_entry), 180) for j in jobs],
+    def _via(k):
+        # every other job goes through the PUBLIC entry points cpp.compile / cpp.compile_ekf (synthetic sys.argv; the configuration
+        # as a dict or as a cpp.Config object) instead of the internal generator functions: their configuration handling is part
+        # of what is replayed
+        return (k % 2 == 0) if via_entry == "alternate" else bool(via_entry)
+    gen = workers.run_tasks([("tasks", "cpp_generate", (j["clean"], j["cse"], j["dir"], kind, _pres(j), _via(k)), 180) for k, j in enumerate(jobs)],
                             procs=ctx.cores)
     results = []
     build_jobs = []
